@@ -485,6 +485,26 @@ def r1_update(ctx, repo, cls):
                       "behind the pipeline's, so predict no longer equals the composition of the parts"
                       % ", ".join("%s is %s" % (res.fmt(c), p) for c, p, _ in res.facts(ef)), loc_of(ef),
                       witness={"history": "fit(y1); update(y2, update_params=False); predict()"})
+    # steps_[i] = (name, est) in update may only put back the estimator that already sits at position i
+    for st_ in [e for e in res.of_kind("setitem") if "steps_" in note_base_attrs(res, e) or step_attr(e.base) == "steps_"]:
+        v = st_.value
+        if not (isinstance(v, tuple) and v[0] == "tuple" and len(v[1]) == 2):
+            continue
+        est_sc = step_component(v[1][1], 1)
+        key = C + ":restore-position"
+        if is_const(st_.index) and est_sc is not None:
+            if est_sc[1] == st_.index[1]:
+                ctx.ok("R1", key + ":%d" % st_.index[1], "steps_[%d] keeps its own estimator" % st_.index[1], loc_of(st_))
+            else:
+                ctx.violation("R1", key + ":%d" % st_.index[1], "steps_[%d] is overwritten with the estimator of steps_[%d]: the pipeline's "
+                              "steps are no longer (transformers..., forecaster)" % (st_.index[1], est_sc[1]), loc_of(st_),
+                              witness={"history": "fit(y1); update(y2); predict(): a transformer slot now holds the forecaster"})
+        elif res.loops_of(st_):
+            tl_ = TLoop(res, res.loops[res.loops_of(st_)[-1]])
+            if v[1][1] == tl_.transformer:
+                ctx.check(st_.index == tl_.index and not tl_.rev and const(tl_.sl[1] if tl_.sl else NONE, 0) in (None, 0), "R1", key + ":transformers",
+                          "each transformer is put back at its own position", "a transformer is written to position %s, not to its own"
+                          % res.fmt(st_.index), loc_of(st_))
     # transformer updates
     tu = [e for e in ups if e not in fin and res.loops_of(e)]
     if not tu:
@@ -776,6 +796,137 @@ def r2_predict(ctx, repo, cls):
                   "accepted option %r is answered with .%s" % (nm, "/.".join(sorted(ops)) or "nothing"), loc0)
 
 
+
+# ------------------------------------------------------------------------------------------ R2 online ensemble (structure of the weighting)
+def r2_online(ctx, repo):
+    """OnlineEnsembleForecaster: the *structure* of the weighted combination (not the weight values): uniform initial
+    weights, forecast = sum over members of (member forecast x current weight), the weights are learned from member
+    forecasts made *before* the members see the new batch, for every non-empty batch when an algorithm is configured."""
+    cls = repo.cls(ONLINE + ":OnlineEnsembleForecaster")
+    # --- fit: uniform weights
+    res = analysed(ctx, Prov(repo).run_method(cls, "fit"))
+    C = "OnlineEnsembleForecaster.fit"
+    ws = res.stores("weights")
+    members = ("item", ("unzip", ("attr0", "forecasters")), ("const", 1))
+    n = ("len", members)
+    if len(ws) == 1:
+        v = ws[0].value
+        ones = res.ret_event(v[2]) if isinstance(v, tuple) and v[:2] == ("binop", "Div") else None
+        good = (ones is not None and ones.target.kind == "ext" and ones.target.ext == "numpy.ones" and ones.args[:1] == (n,) and v[3] == n)
+        if good:
+            ctx.ok("R2", C + ":initial-weights", "initial weights are uniform: ones(n) / n", loc_of(ws[0]))
+        elif isinstance(v, tuple) and v[0] == "binop" and v[1] != "Div" and res.ret_event(v[2]) is not None and res.ret_event(v[2]).name == "ones" and v[3] == n:
+            ctx.violation("R2", C + ":initial-weights", "initial weights are ones(n) %s n, not the uniform weights ones(n) / n that sum to one "
+                          "(the first forecasts are n-fold / mis-scaled)" % v[1], loc_of(ws[0]))
+        else:
+            ctx.undecided("R2", C + ":initial-weights", "initial weights: %s" % res.fmt(v), loc_of(ws[0]))
+    # --- _predict: weighted sum across members
+    res = analysed(ctx, Prov(repo).run_method(cls, "_predict"))
+    fn = repo.lookup_method(cls, "_predict")[1]
+    C = "OnlineEnsembleForecaster._predict"
+    loc0 = ctx.loc(cls.module, fn)
+    rets = [v for v, _ in res.returns]
+    se = res.ret_event(rets[0]) if len(rets) == 1 else None
+    if se is None or se.target.kind != "attr":
+        ctx.undecided("R2", C + ":weighted-sum", "result is %s" % [res.fmt(v) for v in rets], loc0)
+        return
+    prod = se.recv
+    ok_shape = isinstance(prod, tuple) and prod[0] == "binop" and len(prod) == 4
+    cat = None
+    wterm = None
+    if ok_shape:
+        for a, b in ((prod[2], prod[3]), (prod[3], prod[2])):
+            ce = res.ret_event(a)
+            if ce is not None and ce.target is not None and ce.target.kind == "ext" and ce.target.ext == "pandas.concat":
+                cat, wterm = ce, b
+    if cat is None:
+        ctx.undecided("R2", C + ":weighted-sum", "result is %s" % res.fmt(rets[0]), loc0)
+        return
+    wok = all((isinstance(a, tuple) and a[0] in ("attr0", "attr@") and a[1] == "weights") or a == ("getattr", ("attr0", "ensemble_algorithm"), "weights")
+              for a in alts(wterm))
+    if se.name == "sum" and prod[1] == "Mult" and wok:
+        ctx.ok("R2", C + ":weighted-sum", "forecast = (member forecasts x weights).sum over members", loc_of(se))
+    elif wok and (se.name != "sum" or prod[1] != "Mult"):
+        ctx.violation("R2", C + ":weighted-sum", "the member forecasts are combined as (forecasts %s weights).%s, not as the weighted sum" % (prod[1], se.name),
+                      loc_of(se))
+    else:
+        ctx.undecided("R2", C + ":weighted-sum", "combination: %s" % res.fmt(rets[0]), loc_of(se))
+    axis_check(ctx, res, C + ":sum-axis", se.arg(0, "axis"), "the weighted forecasts are summed", loc_of(se))
+    axis_check(ctx, res, C + ":concat-axis", cat.arg(1, "axis"), "member forecasts are concatenated", loc_of(cat))
+    objs = cat.arg(0, "objs")
+    base, rev, sl = seq_shape(res.as_seq(objs)) if objs is not None else (None, False, None)
+    pe = res.ret_event(base[1]) if isinstance(base, tuple) and base[0] == "comp" else None
+    if pe is None or pe.name != "predict":
+        ctx.undecided("R2", C + ":members", "combined objects are not the member forecasts: %s" % res.fmt(objs), loc_of(cat))
+    else:
+        L = res.loops[base[2]]
+        mb, mrev, msl = seq_shape(L.iter)
+        ctx.check(mb == ("attr0", "forecasters_") and msl is None and sl is None and not rev and not mrev and loop_plain(res, L.id)
+                  and pe.recv == ("elem", L.iter, L.id), "R2", C + ":members", "one forecast per fitted member, in member order (the order of the weights)",
+                  "the forecasts combined are not those of all fitted members in member order: iterates %s" % res.fmt(L.iter), loc_of(pe))
+        b = pe.bind(fsig(repo, "predict"))
+        for p_ in ("fh", "X"):
+            if b is None:
+                ctx.undecided("R2", C + ":members:forward:" + p_, "cannot bind the member predict call", loc_of(pe))
+            else:
+                forwarded(ctx, res, "R2", C + ":members:forward:" + p_, b.get(p_), P(p_), "members predict for the caller's %s" % p_,
+                          "members do not predict with the caller's `%s`" % p_, loc_of(pe))
+    algo = ("attr0", "ensemble_algorithm")
+    wst = res.stores("weights")
+    if not wst and wok and not any(a == ("getattr", algo, "weights") for a in alts(wterm)):
+        ctx.violation("R2", C + ":current-weights", "the forecast is combined with the weights stored on the forecaster, which are never refreshed from "
+                      "the ensemble algorithm: what the algorithm learned in update() is ignored", loc_of(se),
+                      witness={"history": "fit(y1); update(y2) (algorithm re-weights); predict() still uses the uniform initial weights"})
+    if wst:
+        s0 = wst[0]
+        facts = [(c, pol) for c, pol, o in res.facts(s0) if o != "raise"]
+        good = s0.value == ("getattr", algo, "weights") and facts == [(("cmp", "IsNot", algo, NONE), True)]
+        ctx.check(True if good else None, "R2", C + ":current-weights", "the weights are refreshed from the configured algorithm before use",
+                  "weights refresh: %s under %s" % (res.fmt(s0.value), [(res.fmt(c), p) for c, p in facts]), loc_of(s0))
+    # --- update: learn from forecasts made before the members are updated
+    res = analysed(ctx, Prov(repo, no_inline=("_fit_ensemble",)).run_method(cls, "update"))
+    fn = repo.lookup_method(cls, "update")[1]
+    C = "OnlineEnsembleForecaster.update"
+    loc0 = ctx.loc(cls.module, fn)
+    fe = [e for e in res.calls("_fit_ensemble", kind=("call",)) if e.target.kind == "method"]
+    mu = [e for e in res.calls("update", kind=("call",)) if e.target.kind == "attr"]
+    if len(fe) != 1 or fe[0].bound is None:
+        ctx.check(None if fe else False, "R2", C + ":learn-weights", "", "the ensemble weights are never updated from the new observations", loc0)
+        return
+    f = fe[0]
+    facts = [(c, pol) for c, pol, o in res.facts(f)]
+    ny = ("len", P("y"))
+    nonempty = [(c, pol) for c, pol in facts if isinstance(c, tuple) and c[0] == "cmp" and ny in (c[2], c[3])]
+    has_algo = [(c, pol) for c, pol in facts if isinstance(c, tuple) and c[0] == "cmp" and {c[2], c[3]} == {algo, NONE}]
+    other = [x for x in facts if x not in nonempty and x not in has_algo]
+
+    def is_nonempty(c, pol):
+        op, a, b = c[1], c[2], c[3]
+        if not pol:
+            op = {"Gt": "LtE", "GtE": "Lt", "Lt": "GtE", "LtE": "Gt", "Eq": "NotEq", "NotEq": "Eq"}.get(op)
+        if a == ny:
+            return (op, b) in (("GtE", ("const", 1)), ("Gt", ("const", 0)), ("NotEq", ("const", 0)))
+        return (op, a) in (("LtE", ("const", 1)), ("Lt", ("const", 0)), ("NotEq", ("const", 0)))
+
+    if other or len(nonempty) > 1 or len(has_algo) != 1:
+        ctx.undecided("R2", C + ":learn-weights:guard", "weights are learned under %s" % [(res.fmt(c), p) for c, p in facts], loc_of(f))
+    elif not ((has_algo[0][0][1] == "IsNot") == has_algo[0][1]):
+        ctx.violation("R2", C + ":learn-weights:guard", "the weights are learned only when *no* ensemble algorithm is configured", loc_of(f))
+    elif nonempty and not is_nonempty(*nonempty[0]):
+        ctx.violation("R2", C + ":learn-weights:guard", "the weights are not learned from some non-empty batches (guard %s is %s): with one-step "
+                      "updates the ensemble never learns" % (res.fmt(nonempty[0][0]), nonempty[0][1]), loc_of(f),
+                      witness={"history": "update_predict with the default window of one observation"})
+    else:
+        ctx.ok("R2", C + ":learn-weights:guard", "weights are learned for every non-empty batch when an algorithm is configured", loc_of(f))
+    forwarded(ctx, res, "R2", C + ":learn-weights:y", f.bound.get("y"), P("y"), "the new observations are the learning target",
+              "_fit_ensemble does not receive the new observations", loc_of(f))
+    forwarded(ctx, res, "R2", C + ":learn-weights:X", f.bound.get("X"), P("X"), "X forwarded", "_fit_ensemble does not receive `X`", loc_of(f))
+    ctx.check(bool(mu) and all(f.id < e.id for e in mu), "R2", C + ":learn-before-member-update",
+              "member forecasts used for learning are made before the members see the batch",
+              "the members are updated before the weights are learned: the 'forecasts' compared with the new observations are made by members that "
+              "already contain them", loc_of(f))
+
+
 # ------------------------------------------------------------------------------------------ R3 multiplexer
 def _subterms(t):
     out = set()
@@ -988,6 +1139,17 @@ def r3(ctx, repo):
             rv = [v for v, _ in r.returns]
             ctx.check(rv == [("ret", e.id)], "R3", Cm + ":result", "returns the selected forecaster's forecast unchanged",
                       "the result is %s, not the selected forecaster's forecast" % [r.fmt(v) for v in rv], loc_of(e))
+
+
+def composite_updates(ctx, repo):
+    """"...after fit followed by updates": the composites' update must propagate the batch to every part with all options.
+    That contract is C10-R4's; its verdicts are reported here under the rule of the composite concerned."""
+    roots = (PIPE, ENS, MUX, STACK, ONLINE)
+    for rule, cname in (("R1", "TransformedTargetForecaster"), ("R2", "EnsembleForecaster"), ("R2", "OnlineEnsembleForecaster"),
+                        ("R3", "MultiplexForecaster"), ("R4", "StackingForecaster")):
+        borrow(ctx, "C10", "r4", (), rule, cname + ".update:propagation", lambda r, cname=cname: r["construct"].startswith(cname + ".update"),
+               "the propagation of an update to every inner estimator (guard, own merge, y / X / update_params forwarded, every part on every path)",
+               roots=roots)
 
 
 def r3_inherited(ctx, repo):
@@ -1225,6 +1387,8 @@ def run(ctx):
     r2_predict(ctx, repo, ens)
     r3(ctx, repo)
     r3_inherited(ctx, repo)
+    r2_online(ctx, repo)
+    composite_updates(ctx, repo)
     r4(ctx, repo)
     # floors: a whole family of instances vanishing fails closed; a refactoring that merges a few
     # instances (e.g. one dynamic aggregator call instead of four branches) does not
